@@ -29,6 +29,7 @@ def run(tier, rep):
     rep.assumptions += [
         "declaration kinds: field, const, object, array, custom_func(concat), field with computed xpath (xpath_dynamic: field or const; only computed values that denote an existing path name, nothing, or a failure); "
         "template and constant xpath_dynamic are also exercised as alternative renderings of the same tree (inlined = referenced; constant xpath_dynamic = xpath)",
+        "streams (Stream.tla) are replayed as XML only: the documents have equally named siblings, which JSON objects cannot express",
         "types: none/int over the alphabet {1,2,x,y,space}; calls are well-typed (ill-typed custom_func arguments are C03's concern)",
         "a kept empty object/array/null is compared modulo rendering ({} = [] = null): the statement fixes omission, not rendering",
     ]
@@ -44,12 +45,18 @@ def run(tier, rep):
 
     def one(job):
         name, c = job
+        if name == "stream":
+            return name, vlib.tlc("MC_Stream", "MC_Stream.cfg", consts=c, timeout=6000, workers=4)
         consts = {k: str(v) for k, v in c.items()}
         consts.update(KeyHasAnchor="TRUE", SortByFqdn="FALSE", EmitCases="TRUE")
         return name, vlib.tlc("MC_Eval", "MC_Eval.cfg", consts=consts, timeout=6000, workers=4)
 
+    # Stream.tla: whole inputs of several records, declarations that leave the record; the design with one ParseCtx per
+    # record (Shared = FALSE) satisfies StreamCacheInvisible, its cases are replayed on the real Transform
+    stream_job = ("stream", dict(MaxKids="4" if thorough else "3", Shared="FALSE", EmitCases="TRUE", EmitMod="4" if thorough else "1"))
     with ThreadPoolExecutor(max_workers=4) as ex:
-        results = list(ex.map(one, jobs))
+        results = list(ex.map(one, [stream_job] + jobs))
+    _, sr = results.pop(0)
     k = 0
     for name, r in results:
         rep.add_tlc("MC_Eval(%s)" % name, r)
@@ -63,6 +70,22 @@ def run(tier, rep):
         recs, _ = vlib.run_vh(["c02-replay", p], timeout=6000)
         handle(rep, recs)
         os.remove(p)
+    r = sr
+    rep.add_tlc("MC_Stream", r)
+    if not vlib.tlc_ok(r, "MC_Stream"):
+        log(r.out[-3000:])
+        raise vlib.Inconclusive("Stream.tla violates %s: specification problem" % r.violated)
+    p = os.path.join(vlib.scratch(), "c02.stream.ndjson")
+    vlib.write_ndjson(p, r.cases)
+    del r.cases[:]
+    recs, _ = vlib.run_vh(["c02-stream", p], timeout=6000)
+    handle(rep, recs)
+    os.remove(p)
+    if thorough:   # sensitivity of the specification itself: the shared-context design must be refuted
+        r = vlib.tlc("MC_Stream", "MC_Stream.cfg", consts=dict(MaxKids="3", Shared="TRUE"), timeout=3000)
+        if r.violated != "StreamCacheInvisible":
+            raise vlib.Inconclusive("Stream.tla does not refute the design with one result cache for the whole stream (got %s)" % r.violated)
+        rep.notes.append("MC_Stream with Shared = TRUE is refuted (StreamCacheInvisible), as it must be")
     tr = os.path.join(vlib.scratch(), "c02.trace.ndjson")
     recs, _ = vlib.run_vh(["c02-drive", tr] + (["2500", "10", "10"] if thorough else ["250", "8", "8"]))
     handle(rep, recs)
@@ -74,6 +97,8 @@ def run(tier, rep):
     rep.cov["rule"] = ("B1: declaration trees (M nodes over 34 node variants: field/const/object/array/concat x xpath x type x no_trim x keep) "
                        "x records (<=3 nodes), plus the directed families 'collide' (identical declarations in anchoring and non-anchoring "
                        "position), 'order' (array with 11 elements) and 'dyn' (xpath_dynamic whose computation succeeds, is empty or fails, next to a "
-                       "declaration with the same text); each rendered three ways (inline, every subtree as a template, "
+                       "declaration with the same text); Stream.tla: every input of <=3/4 records and persistent siblings x targets /*/b, /*/* x declaration "
+                       "trees that read outside the record (`..`-anchored objects, ../a, ../b), expected value per record from the partial tree at "
+                       "delivery time; each rendered three ways (inline, every subtree as a template, "
                        "xpath_dynamic) for XML and JSON input; expectations from RefEval in Eval.tla. B2: random trees (<=8/10 nodes) and "
                        "records checked by TLC. non-trivial: >=3 declarations, an anchoring xpath, result neither null nor a failure")
